@@ -442,4 +442,840 @@ theorem aSwap_def {s : State} (a b : Nat) (ha : a ≤ 1) (hb : b ≤ 1)
   rw [exec_of_valid (show (Micro.aSwap a b).valid = true by simp [Micro.valid, ha, hb])]
   simp [exec', haa, hab]
 
+-- loops ----------------------------------------------------------------------------------------------------
+
+/-- a list of steps is executable if an invariant indexed by the position makes each step executable -/
+theorem loop_def (I : Nat → State → Prop) : ∀ (ms : List Micro) (k0 : Nat) (st : State), I k0 st →
+    (∀ k m s, ms[k]? = some m → I (k0 + k) s → ∃ s', exec s m = some s' ∧ I (k0 + k + 1) s') →
+    ∃ st', execAll st ms = some st' ∧ I (k0 + ms.length) st'
+  | [], k0, st, h0, _ => ⟨st, rfl, by simpa using h0⟩
+  | m :: rest, k0, st, h0, hstep => by
+    obtain ⟨s1, e1, i1⟩ := hstep 0 m st (by simp) (by simpa using h0)
+    obtain ⟨st', e2, i2⟩ := loop_def I rest (k0 + 1) s1 (by simpa using i1) (fun k m' s hk hi => by
+      have := hstep (k + 1) m' s (by simpa using hk) (by rw [show k0 + (k + 1) = k0 + 1 + k by omega]; exact hi)
+      rw [show k0 + (k + 1) + 1 = k0 + 1 + k + 1 by omega] at this; exact this)
+    refine ⟨st', by simp only [execAll, e1]; exact e2, ?_⟩
+    rw [show k0 + (m :: rest).length = k0 + 1 + rest.length by simp only [List.length_cons]; omega]
+    exact i2
+
+theorem range_map_get {f : Nat → Micro} {n k : Nat} {m : Micro} (h : ((List.range n).map f)[k]? = some m) :
+    k < n ∧ m = f k := by
+  simp only [List.getElem?_map, Option.map_eq_some_iff] at h
+  obtain ⟨a, ha, rfl⟩ := h
+  obtain ⟨hlt, hget⟩ := List.getElem?_eq_some_iff.mp ha
+  simp only [List.length_range] at hlt
+  simp only [List.getElem_range] at hget
+  subst hget
+  exact ⟨hlt, rfl⟩
+
+theorem execAll_cons_def {st s1 : State} {m : Micro} {rest : List Micro} (h1 : exec st m = some s1)
+    (h2 : ∃ st', execAll s1 rest = some st') : ∃ st', execAll st (m :: rest) = some st' := by
+  obtain ⟨st', h2⟩ := h2
+  exact ⟨st', by simp only [execAll, h1]; exact h2⟩
+
+theorem execAll_one_def {st : State} {m : Micro} (h : ∃ s', exec st m = some s') :
+    ∃ st', execAll st [m] = some st' := by
+  obtain ⟨s', h⟩ := h
+  exact ⟨s', by simp [execAll, h]⟩
+
+/-- the common part of what a step leaves: invariant, alive flags of a plain step, frames -/
+theorem step_post {s s' : State} (h : SInv s) {m : Micro} (he : exec s m = some s') :
+    SInv s' ∧ (∀ c, c ∉ m.nodeTargets → s'.nodes c = s.nodes c) ∧ (∀ a, a ∉ m.arrTargets → s'.arrs a = s.arrs a) :=
+  ⟨(exec_ok h m he).1, fun c hc => (Stable.exec_frame_node h m he c hc).1,
+    fun a ha => (Stable.exec_frame_arr h m he a ha).1⟩
+
+/-- copying the first n items of w into c (w may be c itself: the container only grows) -/
+theorem copyItems_def {s : State} (h : SInv s) (c w : Var) (hc : c.valid = true) (hk : w.k = c.k)
+    (ha : (s.nodes c).alive = true) (n : Nat) (hn : n ≤ (s.nodes w).items.length) :
+    ∃ s', execAll s (copyItems c w n) = some s' := by
+  obtain ⟨s', he, _⟩ := loop_def
+    (fun _ x => SInv x ∧ (x.nodes c).alive = true ∧ n ≤ (x.nodes w).items.length)
+    (copyItems c w n) 0 s ⟨h, ha, hn⟩ (by
+      intro j m x hm ⟨ix, ax, nx⟩
+      obtain ⟨hj, rfl⟩ := range_map_get hm
+      have hjw : j < (x.nodes w).items.length := by omega
+      have hdef := put_def ix c none (if c.k.hasKey then some (.item w j 0) else none)
+        (if c.k = .S then none else some (.item w j 1)) hc ax (by simp)
+        (by
+          intro r hr
+          by_cases hkey : c.k.hasKey = true
+          · simp only [hkey, if_true, Option.some.injEq] at hr
+            subst hr
+            exact srcOK_item (by rw [hk]; exact (hasKey_iff c.k).mp hkey) hjw
+          · simp [hkey] at hr)
+        (by
+          intro h0
+          have := (hasKey_iff c.k).mpr h0
+          simp [this])
+        (by
+          intro r hr
+          by_cases hS : c.k = .S
+          · simp [hS] at hr
+          · simp only [hS, if_false, Option.some.injEq] at hr
+            subst hr
+            exact srcOK_item (by rw [hk]; exact (one_mem_fields c.k).mpr hS) hjw)
+        (by
+          intro h1
+          have := (one_mem_fields c.k).mp h1
+          simp [this])
+        (by
+          intro _ r hr
+          by_cases hS : c.k = .S
+          · simp [hS] at hr
+          · simp only [hS, if_false, Option.some.injEq] at hr
+            subst hr; trivial)
+      obtain ⟨x', hx'⟩ := hdef
+      obtain ⟨l1, _, o1, _, a1⟩ := put_post c none _ _ hx'
+      refine ⟨x', hx', (exec_ok ix _ hx').1, by rw [a1]; exact ax, ?_⟩
+      by_cases hwc : w = c
+      · subst hwc; omega
+      · rw [o1 w hwc]; exact nx)
+  exact ⟨s', he⟩
+
+/-- placement-news at the end of v from the elements of another array w -/
+theorem pushes_other {s : State} (h : SInv s) (v w n : Nat) (hv : v ≤ 1) (hvw : w ≠ v)
+    (hn : n ≤ (s.arrs w).size) (hst : 0 < n → (s.arrs v).store.isSome = true)
+    (hcap : (s.arrs v).size + n ≤ (s.arrs v).cap) :
+    ∃ s', execAll s ((List.range n).map fun j => Micro.aPush v (.elem w j)) = some s' := by
+  obtain ⟨s', he, _⟩ := loop_def
+    (fun k x => SInv x ∧ x.arrs w = s.arrs w ∧ (x.arrs v).size = (s.arrs v).size + k ∧
+      (x.arrs v).cap = (s.arrs v).cap ∧ (x.arrs v).store = (s.arrs v).store)
+    ((List.range n).map fun j => Micro.aPush v (.elem w j)) 0 s ⟨h, rfl, rfl, rfl, rfl⟩ (by
+      intro k m x hm ⟨ix, wx, sx, cx, stx⟩
+      obtain ⟨hk, rfl⟩ := range_map_get hm
+      simp only [Nat.zero_add] at sx ⊢
+      obtain ⟨x', hx'⟩ := aPush_def v (.elem w k) hv (by rw [stx]; exact hst (by omega)) (by omega)
+        (srcOK_elem' ix (by rw [wx]; omega))
+      have hx'' := Stable.exec_exec' hx'
+      obtain ⟨hc2, hst2, _⟩ := aPush_shape v _ hx''
+      obtain ⟨_, hsz⟩ := aPush_abs ix v _ hx''
+      obtain ⟨i', _, fa⟩ := step_post ix hx'
+      refine ⟨x', hx', i', ?_, by rw [hsz, sx]; omega, by rw [hc2, cx], by rw [hst2, stx]⟩
+      rw [fa w (by simp [Micro.arrTargets, hvw]), wx])
+  exact ⟨s', he⟩
+
+-- operations -----------------------------------------------------------------------------------------------
+
+theorem stepRes_ne_fault {st : State} {op : Op}
+    (h : ∀ ms, compile st op = some ms → ∃ st', execAll st ms = some st') : stepRes st op ≠ .fault := by
+  unfold stepRes
+  cases hc : compile st op with
+  | none => simp
+  | some ms => obtain ⟨st', he⟩ := h ms hc; simp [he]
+
+theorem ok_ne_fault {st : State} {op : Op} {P : State → Prop} (h : ∃ s, stepRes st op = .ok s ∧ P s) :
+    stepRes st op ≠ .fault := by
+  obtain ⟨s, hs, _⟩ := h
+  rw [hs]; simp
+
+theorem valid_of {c : Var} (hv : c.v ≤ 1) (hk : c.k ≠ .A) : c.valid = true := by
+  simp [Var.valid, hv, hk]
+
+theorem absArr_get_of_lt {st : State} (h : SInv st) {v i : Nat} (hi : i < (st.arrs v).size) :
+    ∃ x, (absArr st v)[i]? = some x := by
+  have : i < (absArr st v).length := by rw [absArr_length st v h]; exact hi
+  exact ⟨_, List.getElem?_eq_getElem this⟩
+
+section ops
+set_option linter.unusedSectionVars false
+variable {st : State} (h : SInv st) (ha : AllAlive st)
+include h ha
+
+-- Array
+
+theorem nf_aAppend (v x : Nat) : stepRes st (.aAppend v x) ≠ .fault := by
+  by_cases hv : v ≤ 1
+  · exact ok_ne_fault (aAppend_abs h v x hv (ha.2 v hv))
+  · apply stepRes_ne_fault; intro ms hc
+    simp only [compile] at hc; obtain ⟨hg, _⟩ := guard_some hc; simp [hv] at hg
+
+theorem nf_aAppendRef (v i : Nat) : stepRes st (.aAppendRef v i) ≠ .fault := by
+  by_cases hg : v ≤ 1 ∧ i < (st.arrs v).size
+  · obtain ⟨x, hx⟩ := absArr_get_of_lt h hg.2
+    exact ok_ne_fault (aAppendRef_abs h v i x hg.1 hx)
+  · apply stepRes_ne_fault; intro ms hc
+    simp only [compile] at hc; obtain ⟨hg', _⟩ := guard_some hc
+    simp only [Bool.and_eq_true, decide_eq_true_eq] at hg'; exact absurd hg' hg
+
+theorem nf_aAppendPtr (v i n : Nat) : stepRes st (.aAppendPtr v i n) ≠ .fault := by
+  by_cases hg : v ≤ 1 ∧ i + n ≤ (st.arrs v).size
+  · exact ok_ne_fault (aAppendPtr_abs h v i n hg.1 (ha.2 v hg.1) hg.2)
+  · apply stepRes_ne_fault; intro ms hc
+    simp only [compile] at hc; obtain ⟨hg', _⟩ := guard_some hc
+    simp only [Bool.and_eq_true, decide_eq_true_eq] at hg'; exact absurd hg' hg
+
+theorem nf_aAppendArr (v w : Nat) : stepRes st (.aAppendArr v w) ≠ .fault := by
+  by_cases hvw : w = v
+  · subst hvw
+    by_cases hv : w ≤ 1
+    · exact ok_ne_fault (aAppendSelf_abs h w hv (ha.2 w hv))
+    · apply stepRes_ne_fault; intro ms hc
+      simp only [compile] at hc; obtain ⟨hg, _⟩ := guard_some hc; simp [hv] at hg
+  · apply stepRes_ne_fault; intro ms hc
+    simp only [compile] at hc; obtain ⟨hg, rfl⟩ := guard_some hc
+    simp only [Bool.and_eq_true, decide_eq_true_eq] at hg
+    obtain ⟨s1, h1⟩ := aReserve_def (s := st) v ((st.arrs v).size + (st.arrs w).size) hg.1 (ha.2 v hg.1)
+    obtain ⟨_, hsize, _, hcap, hstore, hoth⟩ := aReserve_abs h v _ (Stable.exec_exec' h1)
+    refine execAll_cons_def h1 ?_
+    have := pushes_other (exec_ok h _ h1).1 v w (st.arrs w).size hg.1 hvw (by rw [hoth w hvw]; exact Nat.le_refl _)
+      (fun hn => hstore (by omega)) (by rw [hsize]; exact hcap)
+    exact this
+
+theorem nf_aResize (v n x : Nat) : stepRes st (.aResize v n x) ≠ .fault := by
+  by_cases hv : v ≤ 1
+  · by_cases hn : n < (st.arrs v).size
+    · apply stepRes_ne_fault; intro ms hc
+      simp only [compile, hn, if_true] at hc; obtain ⟨_, rfl⟩ := guard_some hc
+      exact execAll_one_def (aTruncate_def v n hv (ha.2 v hv))
+    · exact ok_ne_fault (aResize_abs h v n x hv (ha.2 v hv) (by omega))
+  · apply stepRes_ne_fault; intro ms hc
+    simp only [compile] at hc; obtain ⟨hg, _⟩ := guard_some hc; simp [hv] at hg
+
+theorem nf_aResizeRef (v n i : Nat) : stepRes st (.aResizeRef v n i) ≠ .fault := by
+  by_cases hg : v ≤ 1 ∧ i < (st.arrs v).size
+  · by_cases hn : n < (st.arrs v).size
+    · apply stepRes_ne_fault; intro ms hc
+      simp only [compile, hn, if_true] at hc; obtain ⟨_, rfl⟩ := guard_some hc
+      exact execAll_one_def (aTruncate_def v n hg.1 (ha.2 v hg.1))
+    · obtain ⟨x, hx⟩ := absArr_get_of_lt h hg.2
+      exact ok_ne_fault (aResizeRef_abs h v n i x hg.1 hx (by omega))
+  · apply stepRes_ne_fault; intro ms hc
+    simp only [compile] at hc; obtain ⟨hg', _⟩ := guard_some hc
+    simp only [Bool.and_eq_true, decide_eq_true_eq] at hg'; exact absurd hg' hg
+
+theorem nf_aReserve (v n : Nat) : stepRes st (.aReserve v n) ≠ .fault := by
+  apply stepRes_ne_fault; intro ms hc
+  simp only [compile] at hc; obtain ⟨hg, rfl⟩ := guard_some hc
+  simp only [decide_eq_true_eq] at hg
+  exact execAll_one_def (aReserve_def v n hg (ha.2 v hg))
+
+theorem nf_aRemove (v i : Nat) : stepRes st (.aRemove v i) ≠ .fault := by
+  apply stepRes_ne_fault; intro ms hc
+  simp only [compile] at hc; obtain ⟨hg, rfl⟩ := guard_some hc
+  simp only [decide_eq_true_eq] at hg
+  by_cases hi : i < (st.arrs v).size
+  · rw [if_pos hi]; exact execAll_one_def (aRemove_def h v i hg hi)
+  · rw [if_neg hi]; exact ⟨st, rfl⟩
+
+theorem nf_aRemoveIt (v i : Nat) : stepRes st (.aRemoveIt v i) ≠ .fault := by
+  apply stepRes_ne_fault; intro ms hc
+  simp only [compile] at hc; obtain ⟨hg, rfl⟩ := guard_some hc
+  simp only [Bool.and_eq_true, decide_eq_true_eq] at hg
+  exact execAll_one_def (aRemove_def h v i hg.1 hg.2)
+
+theorem nf_aSet (v i x : Nat) : stepRes st (.aSet v i x) ≠ .fault := by
+  apply stepRes_ne_fault; intro ms hc
+  simp only [compile] at hc; obtain ⟨hg, rfl⟩ := guard_some hc
+  simp only [Bool.and_eq_true, decide_eq_true_eq] at hg
+  exact execAll_one_def (aAssign_def h v i (.ext x) hg.1 hg.2 (srcOK_ext st x) trivial)
+
+-- node containers: single steps
+
+omit h ha in
+theorem ok_none {P : SrcRef → Prop} : ∀ r, (none : Option SrcRef) = some r → P r := by
+  intro r hr; cases hr
+
+omit h ha in
+theorem ok_some {P : SrcRef → Prop} {r0 : SrcRef} (hp : P r0) : ∀ r, some r0 = some r → P r := by
+  intro r hr; cases hr; exact hp
+
+omit h ha in
+theorem getD_le {pos : Option Nat} {n : Nat} (hp : pos.getD 0 ≤ n) : pos.getD n ≤ n := by
+  cases pos <;> simp_all
+
+omit h ha in
+theorem some_ne_none' {r : SrcRef} {P : Prop} : P → (some r : Option SrcRef) ≠ none := fun _ hx => by cases hx
+
+-- List
+theorem nf_lInsert (v : Nat) (pos : Option Nat) (x : Nat) : stepRes st (.lInsert v pos x) ≠ .fault := by
+  apply stepRes_ne_fault; intro ms hc
+  simp only [compile] at hc; obtain ⟨hg, rfl⟩ := guard_some hc
+  simp only [Bool.and_eq_true, decide_eq_true_eq] at hg
+  simp only [len] at hg
+  have hv : (⟨.L, v⟩ : Var).valid = true := valid_of hg.1 (by simp)
+  exact execAll_one_def (put_def h ⟨.L, v⟩ pos none (some (.ext x)) hv (ha.1 _ hv) (getD_le hg.2)
+    ok_none (by simp [Kind.fields]) (ok_some (srcOK_ext st x)) some_ne_none' (fun _ => ok_some trivial))
+
+theorem nf_lInsertRef (v : Nat) (pos : Option Nat) (i : Nat) : stepRes st (.lInsertRef v pos i) ≠ .fault := by
+  apply stepRes_ne_fault; intro ms hc
+  simp only [compile] at hc; obtain ⟨hg, rfl⟩ := guard_some hc
+  simp only [Bool.and_eq_true, decide_eq_true_eq] at hg
+  simp only [len] at hg
+  have hv : (⟨.L, v⟩ : Var).valid = true := valid_of hg.1.1 (by simp)
+  exact execAll_one_def (put_def h ⟨.L, v⟩ pos none (some (.item ⟨.L, v⟩ i 1)) hv (ha.1 _ hv) (getD_le hg.1.2)
+    ok_none (by simp [Kind.fields]) (ok_some (srcOK_item (by simp [Kind.fields]) hg.2)) some_ne_none'
+    (fun _ => ok_some trivial))
+
+theorem nf_lInsertList (v : Nat) (pos : Option Nat) (w : Nat) : stepRes st (.lInsertList v pos w) ≠ .fault := by
+  by_cases hvw : v = w
+  · subst hvw
+    have hlen : len st ⟨.L, v⟩ = (absNode st ⟨.L, v⟩).length := by simp [len, absNode]
+    by_cases hg : v ≤ 1 ∧ pos.getD (len st ⟨.L, v⟩) ≤ len st ⟨.L, v⟩
+    · have hv : (⟨.L, v⟩ : Var).valid = true := valid_of hg.1 (by simp)
+      exact ok_ne_fault (lInsertSelf_abs h v hg.1 (ha.1 _ hv) pos (by rw [← hlen]; exact hg.2))
+    · apply stepRes_ne_fault; intro ms hc
+      simp only [compile] at hc; obtain ⟨hg', _⟩ := guard_some hc
+      simp only [Bool.and_eq_true, decide_eq_true_eq] at hg'
+      exact absurd ⟨hg'.1.1, hg'.2⟩ hg
+  · apply stepRes_ne_fault; intro ms hc
+    simp only [compile, hvw, if_false] at hc; obtain ⟨hg, rfl⟩ := guard_some hc
+    simp only [Bool.and_eq_true, decide_eq_true_eq] at hg
+    simp only [len] at hg
+    have hv : (⟨.L, v⟩ : Var).valid = true := valid_of hg.1.1 (by simp)
+    have hne : (⟨.L, w⟩ : Var) ≠ ⟨.L, v⟩ := by
+      intro e; simp only [Var.mk.injEq, true_and] at e; exact hvw e.symm
+    obtain ⟨s', he, _⟩ := loop_def
+      (fun j x => SInv x ∧ (x.nodes ⟨.L, v⟩).alive = true ∧
+        (x.nodes ⟨.L, v⟩).items.length = (st.nodes ⟨.L, v⟩).items.length + j ∧
+        x.nodes ⟨.L, w⟩ = st.nodes ⟨.L, w⟩)
+      ((List.range (len st ⟨.L, w⟩)).map fun j =>
+        Micro.put ⟨.L, v⟩ (some (pos.getD (len st ⟨.L, v⟩) + j)) none (some (.item ⟨.L, w⟩ j 1)))
+      0 st ⟨h, ha.1 _ hv, rfl, rfl⟩ (by
+        intro j m x hm ⟨ix, ax, lx, wx⟩
+        obtain ⟨hj, rfl⟩ := range_map_get hm
+        simp only [Nat.zero_add, len] at lx hj ⊢
+        obtain ⟨x', hx'⟩ := put_def ix ⟨.L, v⟩ (some (pos.getD (st.nodes ⟨.L, v⟩).items.length + j)) none
+          (some (.item ⟨.L, w⟩ j 1)) hv ax (by simp only [Option.getD_some, lx]; omega)
+          ok_none (by simp [Kind.fields]) (ok_some (srcOK_item (by simp [Kind.fields]) (by rw [wx]; exact hj)))
+          some_ne_none' (fun _ => ok_some trivial)
+        obtain ⟨_, l1, o1, _, a1⟩ := put_post _ _ _ _ hx'
+        exact ⟨x', hx', (exec_ok ix _ hx').1, by rw [a1]; exact ax, by rw [l1 rfl, lx]; omega,
+          by rw [o1 _ hne, wx]⟩)
+    exact ⟨s', he⟩
+
+theorem nf_lRemove (v i : Nat) : stepRes st (.lRemove v i) ≠ .fault := by
+  apply stepRes_ne_fault; intro ms hc
+  simp only [compile] at hc; obtain ⟨hg, rfl⟩ := guard_some hc
+  simp only [Bool.and_eq_true, decide_eq_true_eq] at hg
+  simp only [len] at hg
+  exact execAll_one_def (remove_def _ i (valid_of hg.1 (by simp)) hg.2)
+
+theorem nf_lRemoveVal (v x : Nat) : stepRes st (.lRemoveVal v x) ≠ .fault := by
+  apply stepRes_ne_fault; intro ms hc
+  simp only [compile] at hc; obtain ⟨hg, rfl⟩ := guard_some hc
+  simp only [decide_eq_true_eq] at hg
+  exact execAll_one_def (removeVal_def h _ _ (valid_of hg (by simp)) (srcOK_ext st x))
+
+theorem nf_lRemoveValRef (v i : Nat) : stepRes st (.lRemoveValRef v i) ≠ .fault := by
+  apply stepRes_ne_fault; intro ms hc
+  simp only [compile] at hc; obtain ⟨hg, rfl⟩ := guard_some hc
+  simp only [Bool.and_eq_true, decide_eq_true_eq] at hg
+  simp only [len] at hg
+  exact execAll_one_def (removeVal_def h _ _ (valid_of hg.1 (by simp)) (srcOK_item (by simp [Kind.fields]) hg.2))
+
+theorem nf_lSet (v i x : Nat) : stepRes st (.lSet v i x) ≠ .fault := by
+  apply stepRes_ne_fault; intro ms hc
+  simp only [compile] at hc; obtain ⟨hg, rfl⟩ := guard_some hc
+  simp only [Bool.and_eq_true, decide_eq_true_eq] at hg
+  simp only [len] at hg
+  exact execAll_one_def (assignVal_def _ i (.ext x) (valid_of hg.1 (by simp)) (by simp [Kind.fields]) hg.2
+    (srcOK_ext st x) trivial)
+
+-- Map / MultiMap
+omit h ha in
+theorem mu_ne_A {c : Var} (hk : c.k = .M ∨ c.k = .U) : c.k ≠ .A := by
+  rcases hk with e | e <;> rw [e] <;> simp
+
+omit h ha in
+theorem mu_one {c : Var} (hk : c.k = .M ∨ c.k = .U) : 1 ∈ c.k.fields := by
+  rcases hk with e | e <;> rw [e] <;> simp [Kind.fields]
+
+theorem nf_mInsert (c : Var) (k x : Nat) : stepRes st (.mInsert c k x) ≠ .fault := by
+  apply stepRes_ne_fault; intro ms hc
+  simp only [compile] at hc; obtain ⟨hg, rfl⟩ := guard_some hc
+  simp only [Bool.and_eq_true, Bool.or_eq_true, decide_eq_true_eq] at hg
+  have hv : c.valid = true := valid_of hg.1 (mu_ne_A hg.2)
+  exact execAll_one_def (put_def h c none (some (.ext k)) (some (.ext x)) hv (ha.1 _ hv) (by simp)
+    (ok_some (srcOK_ext st k)) some_ne_none' (ok_some (srcOK_ext st x)) some_ne_none' (fun _ => ok_some trivial))
+
+theorem nf_mInsertHint (c : Var) (pos k x : Nat) : stepRes st (.mInsertHint c pos k x) ≠ .fault := by
+  apply stepRes_ne_fault; intro ms hc
+  simp only [compile] at hc; obtain ⟨hg, rfl⟩ := guard_some hc
+  simp only [Bool.and_eq_true, decide_eq_true_eq] at hg
+  have hv : c.valid = true := valid_of hg.1.1 (by rw [hg.1.2]; simp)
+  exact execAll_one_def (put_def h c none (some (.ext k)) (some (.ext x)) hv (ha.1 _ hv) (by simp)
+    (ok_some (srcOK_ext st k)) some_ne_none' (ok_some (srcOK_ext st x)) some_ne_none' (fun _ => ok_some trivial))
+
+theorem nf_mInsertRef (c : Var) (k i : Nat) : stepRes st (.mInsertRef c k i) ≠ .fault := by
+  apply stepRes_ne_fault; intro ms hc
+  simp only [compile] at hc; obtain ⟨hg, rfl⟩ := guard_some hc
+  simp only [Bool.and_eq_true, Bool.or_eq_true, decide_eq_true_eq] at hg
+  simp only [len] at hg
+  have hv : c.valid = true := valid_of hg.1.1 (mu_ne_A hg.1.2)
+  exact execAll_one_def (put_def h c none (some (.ext k)) (some (.item c i 1)) hv (ha.1 _ hv) (by simp)
+    (ok_some (srcOK_ext st k)) some_ne_none' (ok_some (srcOK_item (mu_one hg.1.2) hg.2)) some_ne_none'
+    (fun _ => ok_some trivial))
+
+theorem nf_mInsertMap (c : Var) (w : Nat) : stepRes st (.mInsertMap c w) ≠ .fault := by
+  apply stepRes_ne_fault; intro ms hc
+  simp only [compile] at hc; obtain ⟨hg, rfl⟩ := guard_some hc
+  simp only [Bool.and_eq_true, decide_eq_true_eq] at hg
+  have hv : c.valid = true := valid_of hg.1.1 (by rw [hg.2]; simp)
+  exact copyItems_def h c ⟨c.k, w⟩ hv rfl (ha.1 _ hv) _ (Nat.le_refl _)
+
+theorem nf_mRemove (c : Var) (k : Nat) : stepRes st (.mRemove c k) ≠ .fault := by
+  apply stepRes_ne_fault; intro ms hc
+  simp only [compile] at hc; obtain ⟨hg, rfl⟩ := guard_some hc
+  simp only [Bool.and_eq_true, decide_eq_true_eq] at hg
+  exact execAll_one_def (removeKey_def h _ _ (valid_of hg.1 (by rw [hg.2]; simp)) (srcOK_ext st k))
+
+theorem nf_mRemoveAt (c : Var) (i : Nat) : stepRes st (.mRemoveAt c i) ≠ .fault := by
+  apply stepRes_ne_fault; intro ms hc
+  simp only [compile] at hc; obtain ⟨hg, rfl⟩ := guard_some hc
+  simp only [Bool.and_eq_true, Bool.or_eq_true, decide_eq_true_eq] at hg
+  simp only [len] at hg
+  exact execAll_one_def (remove_def _ i (valid_of hg.1.1 (mu_ne_A hg.1.2)) hg.2)
+
+theorem nf_mSet (c : Var) (i x : Nat) : stepRes st (.mSet c i x) ≠ .fault := by
+  apply stepRes_ne_fault; intro ms hc
+  simp only [compile] at hc; obtain ⟨hg, rfl⟩ := guard_some hc
+  simp only [Bool.and_eq_true, Bool.or_eq_true, decide_eq_true_eq] at hg
+  simp only [len] at hg
+  exact execAll_one_def (assignVal_def _ i (.ext x) (valid_of hg.1.1 (mu_ne_A hg.1.2)) (mu_one hg.1.2) hg.2
+    (srcOK_ext st x) trivial)
+
+-- HashMap
+theorem nf_hInsert (v : Nat) (pos : Option Nat) (k x : Nat) : stepRes st (.hInsert v pos k x) ≠ .fault := by
+  apply stepRes_ne_fault; intro ms hc
+  simp only [compile] at hc; obtain ⟨hg, rfl⟩ := guard_some hc
+  simp only [Bool.and_eq_true, decide_eq_true_eq] at hg
+  simp only [len] at hg
+  have hv : (⟨.H, v⟩ : Var).valid = true := valid_of hg.1 (by simp)
+  exact execAll_one_def (put_def h ⟨.H, v⟩ pos (some (.ext k)) (some (.ext x)) hv (ha.1 _ hv) (getD_le hg.2)
+    (ok_some (srcOK_ext st k)) some_ne_none' (ok_some (srcOK_ext st x)) some_ne_none' (fun _ => ok_some trivial))
+
+theorem nf_hAppendRef (v k i : Nat) : stepRes st (.hAppendRef v k i) ≠ .fault := by
+  apply stepRes_ne_fault; intro ms hc
+  simp only [compile] at hc; obtain ⟨hg, rfl⟩ := guard_some hc
+  simp only [Bool.and_eq_true, decide_eq_true_eq] at hg
+  simp only [len] at hg
+  have hv : (⟨.H, v⟩ : Var).valid = true := valid_of hg.1 (by simp)
+  exact execAll_one_def (put_def h ⟨.H, v⟩ none (some (.ext k)) (some (.item ⟨.H, v⟩ i 1)) hv (ha.1 _ hv) (by simp)
+    (ok_some (srcOK_ext st k)) some_ne_none' (ok_some (srcOK_item (by simp [Kind.fields]) hg.2)) some_ne_none'
+    (fun _ => ok_some trivial))
+
+theorem nf_hRemove (v k : Nat) : stepRes st (.hRemove v k) ≠ .fault := by
+  apply stepRes_ne_fault; intro ms hc
+  simp only [compile] at hc; obtain ⟨hg, rfl⟩ := guard_some hc
+  simp only [decide_eq_true_eq] at hg
+  exact execAll_one_def (removeKey_def h _ _ (valid_of hg (by simp)) (srcOK_ext st k))
+
+theorem nf_hRemoveAt (v i : Nat) : stepRes st (.hRemoveAt v i) ≠ .fault := by
+  apply stepRes_ne_fault; intro ms hc
+  simp only [compile] at hc; obtain ⟨hg, rfl⟩ := guard_some hc
+  simp only [Bool.and_eq_true, decide_eq_true_eq] at hg
+  simp only [len] at hg
+  exact execAll_one_def (remove_def _ i (valid_of hg.1 (by simp)) hg.2)
+
+theorem nf_hSet (v i x : Nat) : stepRes st (.hSet v i x) ≠ .fault := by
+  apply stepRes_ne_fault; intro ms hc
+  simp only [compile] at hc; obtain ⟨hg, rfl⟩ := guard_some hc
+  simp only [Bool.and_eq_true, decide_eq_true_eq] at hg
+  simp only [len] at hg
+  exact execAll_one_def (assignVal_def _ i (.ext x) (valid_of hg.1 (by simp)) (by simp [Kind.fields]) hg.2
+    (srcOK_ext st x) trivial)
+
+-- HashSet
+theorem nf_sInsert (v : Nat) (pos : Option Nat) (k : Nat) : stepRes st (.sInsert v pos k) ≠ .fault := by
+  apply stepRes_ne_fault; intro ms hc
+  simp only [compile] at hc; obtain ⟨hg, rfl⟩ := guard_some hc
+  simp only [Bool.and_eq_true, decide_eq_true_eq] at hg
+  simp only [len] at hg
+  have hv : (⟨.S, v⟩ : Var).valid = true := valid_of hg.1 (by simp)
+  exact execAll_one_def (put_def h ⟨.S, v⟩ pos (some (.ext k)) none hv (ha.1 _ hv) (getD_le hg.2)
+    (ok_some (srcOK_ext st k)) some_ne_none' ok_none (by simp [Kind.fields]) (fun _ => ok_none))
+
+theorem nf_sAppendRef (v i : Nat) : stepRes st (.sAppendRef v i) ≠ .fault := by
+  apply stepRes_ne_fault; intro ms hc
+  simp only [compile] at hc; obtain ⟨hg, rfl⟩ := guard_some hc
+  simp only [Bool.and_eq_true, decide_eq_true_eq] at hg
+  simp only [len] at hg
+  have hv : (⟨.S, v⟩ : Var).valid = true := valid_of hg.1 (by simp)
+  exact execAll_one_def (put_def h ⟨.S, v⟩ none (some (.item ⟨.S, v⟩ i 0)) none hv (ha.1 _ hv) (by simp)
+    (ok_some (srcOK_item (by simp [Kind.fields]) hg.2)) some_ne_none' ok_none (by simp [Kind.fields])
+    (fun _ => ok_none))
+
+theorem nf_sAppendSet (v w : Nat) : stepRes st (.sAppendSet v w) ≠ .fault := by
+  apply stepRes_ne_fault; intro ms hc
+  simp only [compile] at hc; obtain ⟨hg, rfl⟩ := guard_some hc
+  simp only [Bool.and_eq_true, decide_eq_true_eq] at hg
+  have hv : (⟨.S, v⟩ : Var).valid = true := valid_of hg.1 (by simp)
+  exact copyItems_def h ⟨.S, v⟩ ⟨.S, w⟩ hv rfl (ha.1 _ hv) _ (Nat.le_refl _)
+
+theorem nf_sRemove (v k : Nat) : stepRes st (.sRemove v k) ≠ .fault := by
+  apply stepRes_ne_fault; intro ms hc
+  simp only [compile] at hc; obtain ⟨hg, rfl⟩ := guard_some hc
+  simp only [decide_eq_true_eq] at hg
+  exact execAll_one_def (removeKey_def h _ _ (valid_of hg (by simp)) (srcOK_ext st k))
+
+theorem nf_sRemoveRef (v i : Nat) : stepRes st (.sRemoveRef v i) ≠ .fault := by
+  apply stepRes_ne_fault; intro ms hc
+  simp only [compile] at hc; obtain ⟨hg, rfl⟩ := guard_some hc
+  simp only [Bool.and_eq_true, decide_eq_true_eq] at hg
+  simp only [len] at hg
+  exact execAll_one_def (removeKey_def h _ _ (valid_of hg.1 (by simp)) (srcOK_item (by simp [Kind.fields]) hg.2))
+
+theorem nf_sRemoveAt (v i : Nat) : stepRes st (.sRemoveAt v i) ≠ .fault := by
+  apply stepRes_ne_fault; intro ms hc
+  simp only [compile] at hc; obtain ⟨hg, rfl⟩ := guard_some hc
+  simp only [Bool.and_eq_true, decide_eq_true_eq] at hg
+  simp only [len] at hg
+  exact execAll_one_def (remove_def _ i (valid_of hg.1 (by simp)) hg.2)
+
+-- PoolList / PoolMap
+theorem nf_pAppend (v x : Nat) : stepRes st (.pAppend v x) ≠ .fault := by
+  apply stepRes_ne_fault; intro ms hc
+  simp only [compile] at hc; obtain ⟨hg, rfl⟩ := guard_some hc
+  simp only [decide_eq_true_eq] at hg
+  have hv : (⟨.P, v⟩ : Var).valid = true := valid_of hg (by simp)
+  exact execAll_one_def (put_def h ⟨.P, v⟩ none none (some (.inplace x)) hv (ha.1 _ hv) (by simp)
+    ok_none (by simp [Kind.fields]) (ok_some (srcOK_inplace st x)) some_ne_none'
+    (fun hk => by rcases hk with e | e <;> cases e))
+
+theorem nf_pRemove (v i : Nat) : stepRes st (.pRemove v i) ≠ .fault := by
+  apply stepRes_ne_fault; intro ms hc
+  simp only [compile] at hc; obtain ⟨hg, rfl⟩ := guard_some hc
+  simp only [Bool.and_eq_true, decide_eq_true_eq] at hg
+  simp only [len] at hg
+  exact execAll_one_def (remove_def _ i (valid_of hg.1 (by simp)) hg.2)
+
+theorem nf_pRemoveRef (v i : Nat) : stepRes st (.pRemoveRef v i) ≠ .fault := by
+  apply stepRes_ne_fault; intro ms hc
+  simp only [compile] at hc; obtain ⟨hg, rfl⟩ := guard_some hc
+  simp only [Bool.and_eq_true, decide_eq_true_eq] at hg
+  simp only [len] at hg
+  exact execAll_one_def (remove_def _ i (valid_of hg.1 (by simp)) hg.2)
+
+theorem nf_qAppend (v k x : Nat) : stepRes st (.qAppend v k x) ≠ .fault := by
+  apply stepRes_ne_fault; intro ms hc
+  simp only [compile] at hc; obtain ⟨hg, rfl⟩ := guard_some hc
+  simp only [decide_eq_true_eq] at hg
+  have hv : (⟨.Q, v⟩ : Var).valid = true := valid_of hg (by simp)
+  exact execAll_one_def (put_def h ⟨.Q, v⟩ none (some (.ext k)) (some (.inplace x)) hv (ha.1 _ hv) (by simp)
+    (ok_some (srcOK_ext st k)) some_ne_none' (ok_some (srcOK_inplace st x)) some_ne_none'
+    (fun hk => by rcases hk with e | e <;> cases e))
+
+theorem nf_qRemove (v k : Nat) : stepRes st (.qRemove v k) ≠ .fault := by
+  apply stepRes_ne_fault; intro ms hc
+  simp only [compile] at hc; obtain ⟨hg, rfl⟩ := guard_some hc
+  simp only [decide_eq_true_eq] at hg
+  exact execAll_one_def (removeKey_def h _ _ (valid_of hg (by simp)) (srcOK_ext st k))
+
+theorem nf_qRemoveAt (v i : Nat) : stepRes st (.qRemoveAt v i) ≠ .fault := by
+  apply stepRes_ne_fault; intro ms hc
+  simp only [compile] at hc; obtain ⟨hg, rfl⟩ := guard_some hc
+  simp only [Bool.and_eq_true, decide_eq_true_eq] at hg
+  simp only [len] at hg
+  exact execAll_one_def (remove_def _ i (valid_of hg.1 (by simp)) hg.2)
+
+theorem nf_qRemoveRef (v i : Nat) : stepRes st (.qRemoveRef v i) ≠ .fault := by
+  apply stepRes_ne_fault; intro ms hc
+  simp only [compile] at hc; obtain ⟨hg, rfl⟩ := guard_some hc
+  simp only [Bool.and_eq_true, decide_eq_true_eq] at hg
+  simp only [len] at hg
+  exact execAll_one_def (remove_def _ i (valid_of hg.1 (by simp)) hg.2)
+
+-- sRemoveSet
+
+omit h ha in
+theorem removeKey_head {s : State} (h : SInv s) (c : Var) (hv : c.valid = true) (h0 : 0 ∈ c.k.fields)
+    (hl : 0 < (s.nodes c).items.length) :
+    ∃ s', exec s (.removeKey c (.item c 0 0)) = some s' ∧
+      (s'.nodes c).items.length = (s.nodes c).items.length - 1 := by
+  rw [exec_of_valid (show (Micro.removeKey c (.item c 0 0)).valid = true from hv)]
+  cases hi : (s.nodes c).items with
+  | nil => rw [hi] at hl; simp at hl
+  | cons it rest =>
+    have hlive := h.items_live c it 0 (by rw [hi]; simp) h0
+    cases hp : s.mem (it.loc 0) with
+    | none => rw [hp] at hlive; cases hlive
+    | some p =>
+      have hp' : s.mem (.heap it.b it.i 0) = some p := hp
+      have hpay : SrcRef.payload s (.item c 0 0) = some p := by
+        simp [SrcRef.payload, SrcRef.loc, h0, hi, hp']
+      have hfind : findField s 0 p (it :: rest) = some 0 := by
+        simp [findField, hp]
+      refine ⟨removeAt s c 0 it, ?_, ?_⟩
+      · simp [exec', hpay, hfind, hi]
+      · simp [removeAt, hi]
+
+theorem nf_sRemoveSet (v w : Nat) : stepRes st (.sRemoveSet v w) ≠ .fault := by
+  apply stepRes_ne_fault; intro ms hc
+  simp only [compile] at hc; obtain ⟨hg, rfl⟩ := guard_some hc
+  simp only [Bool.and_eq_true, decide_eq_true_eq] at hg
+  have hv : (⟨.S, v⟩ : Var).valid = true := valid_of hg.1 (by simp)
+  by_cases hvw : v = w
+  · subst hvw
+    simp only [if_true]
+    obtain ⟨s', he, _⟩ := loop_def
+      (fun j x => SInv x ∧ (x.nodes ⟨.S, v⟩).items.length = (st.nodes ⟨.S, v⟩).items.length - j)
+      (List.replicate (len st ⟨.S, v⟩) (Micro.removeKey ⟨.S, v⟩ (.item ⟨.S, v⟩ 0 0))) 0 st ⟨h, rfl⟩ (by
+        intro j m x hm ⟨ix, lx⟩
+        rw [List.getElem?_replicate] at hm
+        by_cases hj : j < len st ⟨.S, v⟩
+        · simp only [hj, if_true, Option.some.injEq] at hm
+          subst hm
+          simp only [len, Nat.zero_add] at hj lx ⊢
+          obtain ⟨x', hx', lx'⟩ := removeKey_head ix ⟨.S, v⟩ hv (by simp [Kind.fields]) (by omega)
+          exact ⟨x', hx', (exec_ok ix _ hx').1, by rw [lx', lx]; omega⟩
+        · simp [hj] at hm)
+    exact ⟨s', he⟩
+  · simp only [hvw, if_false]
+    have hne : (⟨.S, w⟩ : Var) ∉ (Micro.removeKey ⟨.S, v⟩ (.item ⟨.S, w⟩ 0 0)).nodeTargets := by
+      simp [Micro.nodeTargets]; exact fun e => hvw e.symm
+    obtain ⟨s', he, _⟩ := loop_def
+      (fun _ x => SInv x ∧ x.nodes ⟨.S, w⟩ = st.nodes ⟨.S, w⟩)
+      ((List.range (len st ⟨.S, w⟩)).map fun j => Micro.removeKey ⟨.S, v⟩ (.item ⟨.S, w⟩ j 0)) 0 st ⟨h, rfl⟩ (by
+        intro j m x hm ⟨ix, wx⟩
+        obtain ⟨hj, rfl⟩ := range_map_get hm
+        simp only [len] at hj
+        obtain ⟨x', hx'⟩ := removeKey_def ix ⟨.S, v⟩ (.item ⟨.S, w⟩ j 0) hv
+          (srcOK_item (by simp [Kind.fields]) (by rw [wx]; exact hj))
+        obtain ⟨i', fn, _⟩ := step_post ix hx'
+        exact ⟨x', hx', i', by rw [fn _ (by simp [Micro.nodeTargets]; exact fun e => hvw e.symm), wx]⟩)
+    exact ⟨s', he⟩
+
+-- new, newcap, copy, assign, swap, clear
+
+omit h ha in
+theorem dc_def {s : State} (h : SInv s) (c : Var) (hv : c.valid = true) (hal : (s.nodes c).alive = true) :
+    ∃ s1 s2, exec s (.destroy c) = some s1 ∧ exec s1 (.create c) = some s2 ∧ SInv s2 ∧ FlagsSame s s2 ∧
+      ∀ c', c' ≠ c → s2.nodes c' = s.nodes c' := by
+  obtain ⟨s1, e1⟩ := destroy_def (s := s) c hv hal
+  have hd : (s1.nodes c).alive = false := by
+    rw [(exec_alive _ (Stable.exec_exec' e1)).1 c]; simp [nAlive]
+  obtain ⟨s2, e2⟩ := create_def (s := s1) c hv hd
+  obtain ⟨i1, f1, _⟩ := step_post h e1
+  obtain ⟨i2, f2, _⟩ := step_post i1 e2
+  refine ⟨s1, s2, e1, e2, i2, destroy_create_flags c e1 e2, ?_⟩
+  intro c' hc'
+  rw [f2 c' (by simp [Micro.nodeTargets, hc']), f1 c' (by simp [Micro.nodeTargets, hc'])]
+
+omit h ha in
+theorem adc_def {s : State} (h : SInv s) (a n : Nat) (hv : a ≤ 1) (hal : (s.arrs a).alive = true) :
+    ∃ s1 s2, exec s (.aDestroy a) = some s1 ∧ exec s1 (.aCreate a n) = some s2 ∧ SInv s2 ∧
+      s2.arrs a = { alive := true, cap := n } ∧ ∀ b, b ≠ a → s2.arrs b = s.arrs b := by
+  obtain ⟨s1, e1⟩ := aDestroy_def (s := s) a hv hal
+  have hd : (s1.arrs a).alive = false := by
+    rw [(exec_alive _ (Stable.exec_exec' e1)).2 a]; simp [aAlive]
+  have e2 : exec s1 (.aCreate a n) = some (s1.setArr a { alive := true, cap := n }) := by
+    rw [exec_of_valid (show (Micro.aCreate a n).valid = true by simp [Micro.valid, hv])]
+    simp [exec', hd]
+  obtain ⟨i1, _, f1⟩ := step_post h e1
+  obtain ⟨i2, _, _⟩ := step_post i1 e2
+  refine ⟨s1, _, e1, e2, i2, by simp [upd_same], ?_⟩
+  intro b hb
+  rw [setArr_arrs, upd_other _ _ _ _ hb, f1 b (by simp [Micro.arrTargets, hb])]
+
+omit h ha in
+theorem size_le_cap {s : State} (h : SInv s) (w : Nat) : (s.arrs w).size ≤ (s.arrs w).cap := by
+  cases hs : (s.arrs w).store with
+  | none => rw [h.arr_none w hs]; exact Nat.zero_le _
+  | some x => exact h.arr_size w x hs
+
+omit h ha in
+/-- `reserve(cap of w)` on an empty array v, then copy-construct all elements of w -/
+theorem reserve_copy_def {s : State} (h : SInv s) (v w : Nat) (hv : v ≤ 1) (hvw : w ≠ v)
+    (hal : (s.arrs v).alive = true) (hsz : (s.arrs v).size = 0) :
+    ∃ s', execAll s (Micro.aReserve v (s.arrs w).cap ::
+      (List.range (s.arrs w).size).map fun j => Micro.aPush v (.elem w j)) = some s' := by
+  obtain ⟨s1, h1⟩ := aReserve_def (s := s) v (s.arrs w).cap hv hal
+  obtain ⟨_, hsize, _, hcap, hstore, hoth⟩ := aReserve_abs h v _ (Stable.exec_exec' h1)
+  refine execAll_cons_def h1 ?_
+  have hle := size_le_cap h w
+  exact pushes_other (exec_ok h _ h1).1 v w (s.arrs w).size hv hvw (by rw [hoth w hvw]; exact Nat.le_refl _)
+    (fun hn => hstore (by omega)) (by rw [hsize, hsz]; omega)
+
+omit h ha in
+theorem aTruncate0_size {s s' : State} (h : SInv s) (a : Nat) (he : exec s (.aTruncate a 0) = some s') :
+    (s'.arrs a).size = 0 := by
+  have he' := Stable.exec_exec' he
+  simp only [exec'] at he'
+  cases hA : (s.arrs a).alive with
+  | false => simp [hA] at he'
+  | true =>
+    have hg : ¬ ((!(s.arrs a).alive) = true) := by simp [hA]
+    rw [if_neg hg] at he'
+    cases hs : (s.arrs a).store with
+    | none =>
+      simp only [hs, Option.some.injEq] at he'
+      subst he'; exact h.arr_none a hs
+    | some x =>
+      by_cases hn : 0 < (s.arrs a).size
+      · simp only [hs, hn, if_true, Option.some.injEq] at he'
+        subst he'
+        simp [upd_same]
+      · simp only [hs, hn, if_false, Option.some.injEq] at he'
+        subst he'; omega
+
+theorem nf_new (c : Var) : stepRes st (.new c) ≠ .fault := by
+  apply stepRes_ne_fault; intro ms hc
+  simp only [compile] at hc; obtain ⟨hg, rfl⟩ := guard_some hc
+  simp only [decide_eq_true_eq] at hg
+  by_cases hA : c.k = .A
+  · rw [if_pos hA]
+    obtain ⟨s1, s2, e1, e2, _⟩ := adc_def h c.v 0 hg (ha.2 _ hg)
+    exact ⟨s2, by simp [execAll, e1, e2]⟩
+  · rw [if_neg hA]
+    have hv := valid_of hg hA
+    obtain ⟨s1, s2, e1, e2, _⟩ := dc_def h c hv (ha.1 _ hv)
+    exact ⟨s2, by simp [execAll, e1, e2]⟩
+
+theorem nf_newcap (c : Var) (n : Nat) : stepRes st (.newcap c n) ≠ .fault := by
+  apply stepRes_ne_fault; intro ms hc
+  simp only [compile] at hc; obtain ⟨hg, rfl⟩ := guard_some hc
+  simp only [Bool.and_eq_true, decide_eq_true_eq] at hg
+  by_cases hA : c.k = .A
+  · rw [if_pos hA]
+    obtain ⟨s1, s2, e1, e2, _⟩ := adc_def h c.v n hg.1 (ha.2 _ hg.1)
+    exact ⟨s2, by simp [execAll, e1, e2]⟩
+  · rw [if_neg hA]
+    have hv := valid_of hg.1 hA
+    obtain ⟨s1, s2, e1, e2, _⟩ := dc_def h c hv (ha.1 _ hv)
+    exact ⟨s2, by simp [execAll, e1, e2]⟩
+
+theorem nf_copy (c : Var) (w : Nat) : stepRes st (.copy c w) ≠ .fault := by
+  apply stepRes_ne_fault; intro ms hc
+  simp only [compile] at hc; obtain ⟨hg, rfl⟩ := guard_some hc
+  simp only [Bool.and_eq_true, decide_eq_true_eq] at hg
+  obtain ⟨⟨⟨hcv, hw⟩, hne⟩, _⟩ := hg
+  have hne' : w ≠ c.v := fun e => hne e.symm
+  by_cases hA : c.k = .A
+  · rw [if_pos hA]
+    obtain ⟨s1, s2, e1, e2, i2, a2, o2⟩ := adc_def h c.v 0 hcv (ha.2 _ hcv)
+    simp only [List.cons_append, List.nil_append]
+    refine execAll_cons_def e1 (execAll_cons_def e2 ?_)
+    have := reserve_copy_def i2 c.v w hcv hne' (by rw [a2]) (by rw [a2])
+    rw [o2 w hne'] at this
+    exact this
+  · rw [if_neg hA]
+    have hv := valid_of hcv hA
+    obtain ⟨s1, s2, e1, e2, i2, f2, o2⟩ := dc_def h c hv (ha.1 _ hv)
+    simp only [List.cons_append, List.nil_append]
+    refine execAll_cons_def e1 (execAll_cons_def e2 ?_)
+    have hwc : (⟨c.k, w⟩ : Var) ≠ c := by
+      intro e
+      have : (⟨c.k, w⟩ : Var).v = c.v := by rw [e]
+      exact hne' this
+    exact copyItems_def i2 c ⟨c.k, w⟩ hv rfl (by rw [f2.1]; exact ha.1 _ hv) _
+      (by rw [o2 _ hwc]; exact Nat.le_refl _)
+
+theorem nf_assign (c : Var) (w : Nat) : stepRes st (.assign c w) ≠ .fault := by
+  apply stepRes_ne_fault; intro ms hc
+  simp only [compile] at hc; obtain ⟨hg, rfl⟩ := guard_some hc
+  simp only [Bool.and_eq_true, decide_eq_true_eq] at hg
+  obtain ⟨⟨hcv, hw⟩, _⟩ := hg
+  by_cases hcw : c.v = w
+  · rw [if_pos hcw]; exact ⟨st, rfl⟩
+  · rw [if_neg hcw]
+    have hne' : w ≠ c.v := fun e => hcw e.symm
+    by_cases hA : c.k = .A
+    · rw [if_pos hA]
+      obtain ⟨s1, e1⟩ := aTruncate_def (s := st) c.v 0 hcv (ha.2 _ hcv)
+      obtain ⟨i1, _, f1⟩ := step_post h e1
+      have hal : (s1.arrs c.v).alive = true := by
+        rw [(exec_alive _ (Stable.exec_exec' e1)).2 c.v]; exact ha.2 _ hcv
+      simp only [List.cons_append, List.nil_append]
+      refine execAll_cons_def e1 ?_
+      have := reserve_copy_def i1 c.v w hcv hne' hal (aTruncate0_size h c.v e1)
+      rw [f1 w (by simp [Micro.arrTargets, hne'])] at this
+      exact this
+    · rw [if_neg hA]
+      have hv := valid_of hcv hA
+      obtain ⟨s1, e1⟩ := clear_def (s := st) c hv (ha.1 _ hv)
+      obtain ⟨i1, f1, _⟩ := step_post h e1
+      have hal : (s1.nodes c).alive = true := by
+        rw [(exec_alive _ (Stable.exec_exec' e1)).1 c]; exact ha.1 _ hv
+      simp only [List.cons_append, List.nil_append]
+      refine execAll_cons_def e1 ?_
+      have hwc : (⟨c.k, w⟩ : Var) ≠ c := by
+        intro e
+        have : (⟨c.k, w⟩ : Var).v = c.v := by rw [e]
+        exact hne' this
+      exact copyItems_def i1 c ⟨c.k, w⟩ hv rfl hal _
+        (by rw [f1 _ (by simp [Micro.nodeTargets, hwc])]; exact Nat.le_refl _)
+
+theorem nf_swap (c : Var) (w : Nat) : stepRes st (.swap c w) ≠ .fault := by
+  apply stepRes_ne_fault; intro ms hc
+  simp only [compile] at hc; obtain ⟨hg, rfl⟩ := guard_some hc
+  simp only [Bool.and_eq_true, decide_eq_true_eq] at hg
+  obtain ⟨⟨⟨hcv, hw⟩, _⟩, _⟩ := hg
+  by_cases hA : c.k = .A
+  · rw [if_pos hA]
+    exact execAll_one_def (aSwap_def c.v w hcv hw (ha.2 _ hcv) (ha.2 _ hw))
+  · rw [if_neg hA]
+    have hv := valid_of hcv hA
+    have hv2 : (⟨c.k, w⟩ : Var).valid = true := valid_of hw hA
+    exact execAll_one_def (swap_def c ⟨c.k, w⟩ hv hv2 (ha.1 _ hv) (ha.1 _ hv2) rfl)
+
+theorem nf_clear (c : Var) : stepRes st (.clear c) ≠ .fault := by
+  apply stepRes_ne_fault; intro ms hc
+  simp only [compile] at hc; obtain ⟨hg, rfl⟩ := guard_some hc
+  simp only [decide_eq_true_eq] at hg
+  by_cases hA : c.k = .A
+  · rw [if_pos hA]
+    exact execAll_one_def (aTruncate_def c.v 0 hg (ha.2 _ hg))
+  · rw [if_neg hA]
+    have hv := valid_of hg hA
+    exact execAll_one_def (clear_def c hv (ha.1 _ hv))
+
+/-- no operation faults in a state satisfying the invariant in which all variables are alive -/
+theorem no_fault_st (op : Op) : stepRes st op ≠ .fault := by
+  cases op with
+  | new c => exact nf_new h ha c
+  | newcap c n => exact nf_newcap h ha c n
+  | copy c w => exact nf_copy h ha c w
+  | assign c w => exact nf_assign h ha c w
+  | swap c w => exact nf_swap h ha c w
+  | clear c => exact nf_clear h ha c
+  | aAppend v x => exact nf_aAppend h ha v x
+  | aAppendRef v i => exact nf_aAppendRef h ha v i
+  | aAppendArr v w => exact nf_aAppendArr h ha v w
+  | aAppendPtr v i n => exact nf_aAppendPtr h ha v i n
+  | aResize v n x => exact nf_aResize h ha v n x
+  | aResizeRef v n i => exact nf_aResizeRef h ha v n i
+  | aReserve v n => exact nf_aReserve h ha v n
+  | aRemove v i => exact nf_aRemove h ha v i
+  | aRemoveIt v i => exact nf_aRemoveIt h ha v i
+  | aSet v i x => exact nf_aSet h ha v i x
+  | lInsert v pos x => exact nf_lInsert h ha v pos x
+  | lInsertRef v pos i => exact nf_lInsertRef h ha v pos i
+  | lInsertList v pos w => exact nf_lInsertList h ha v pos w
+  | lRemove v i => exact nf_lRemove h ha v i
+  | lRemoveVal v x => exact nf_lRemoveVal h ha v x
+  | lRemoveValRef v i => exact nf_lRemoveValRef h ha v i
+  | lSet v i x => exact nf_lSet h ha v i x
+  | mInsert c k x => exact nf_mInsert h ha c k x
+  | mInsertHint c pos k x => exact nf_mInsertHint h ha c pos k x
+  | mInsertRef c k i => exact nf_mInsertRef h ha c k i
+  | mInsertMap c w => exact nf_mInsertMap h ha c w
+  | mRemove c k => exact nf_mRemove h ha c k
+  | mRemoveAt c i => exact nf_mRemoveAt h ha c i
+  | mSet c i x => exact nf_mSet h ha c i x
+  | hInsert v pos k x => exact nf_hInsert h ha v pos k x
+  | hAppendRef v k i => exact nf_hAppendRef h ha v k i
+  | hRemove v k => exact nf_hRemove h ha v k
+  | hRemoveAt v i => exact nf_hRemoveAt h ha v i
+  | hSet v i x => exact nf_hSet h ha v i x
+  | sInsert v pos k => exact nf_sInsert h ha v pos k
+  | sAppendRef v i => exact nf_sAppendRef h ha v i
+  | sAppendSet v w => exact nf_sAppendSet h ha v w
+  | sRemove v k => exact nf_sRemove h ha v k
+  | sRemoveRef v i => exact nf_sRemoveRef h ha v i
+  | sRemoveSet v w => exact nf_sRemoveSet h ha v w
+  | sRemoveAt v i => exact nf_sRemoveAt h ha v i
+  | pAppend v x => exact nf_pAppend h ha v x
+  | pRemove v i => exact nf_pRemove h ha v i
+  | pRemoveRef v i => exact nf_pRemoveRef h ha v i
+  | qAppend v k x => exact nf_qAppend h ha v k x
+  | qRemove v k => exact nf_qRemove h ha v k
+  | qRemoveAt v i => exact nf_qRemoveAt h ha v i
+  | qRemoveRef v i => exact nf_qRemoveRef h ha v i
+
+end ops
+
+/-- the model never faults in a reachable state: every compiled micro list executes completely -/
+theorem no_fault (ops : List Op) (op : Op) : stepRes (run init ops) op ≠ Res.fault :=
+  no_fault_st (reach_ok ops).1 (allAlive_reach ops) op
+
 end Nstd.Life.Ops
